@@ -68,6 +68,24 @@ def subsequence_matching(query, series, penalty=0.0, ndim=False):
     return vals, starts
 
 
+def subsequence_matching_free_start(query, series, penalty=0.0, ndim=False):
+    """The same quantity by one DP with a free start in the series (row 0 all zero): min over start points of the
+    penalised DTW equals the free-start optimum.  Used for inputs too long for the brute-force enumeration; the two
+    are cross-checked against each other on every small input."""
+    nq, ns = len(query), len(series)
+    pen = (penalty or 0.0) ** 2
+    prev = [0.0] * (ns + 1)
+    for i in range(nq):
+        cur = [inf] * (ns + 1)
+        for j in range(ns):
+            d = _pd(query[i], series[j], ndim)
+            cur[j + 1] = d + min(prev[j], prev[j + 1] + pen, cur[j] + pen)
+        prev = cur
+        if i == 0:
+            pass
+    return [math.sqrt(v) / nq if v < inf else inf for v in prev[1:]]
+
+
 def path_cost(query, series, path, penalty=0.0, ndim=False):
     """Accumulated penalised squared cost along an explicit path [(i, j), ...] (no start/end conditions)."""
     pen = (penalty or 0.0) ** 2
